@@ -505,6 +505,9 @@ class Evaluator:
                 return self._builtin(_BUILTINS[n.func.id], args, kwargs)
             if n.func.id in _BUILTIN_EXC or n.func.id.endswith("Exception") or n.func.id.endswith("Error"):
                 return ("exception", n.func.id, args)
+            home = getattr(self, "home", None)
+            if home is not None and n.func.id in home.module_funcs:
+                return home.helper(n.func.id)(*args, **kwargs)   # a helper of the same module (e.g. extracted by a refactoring)
             raise Unfoldable(f"call of {key}")
         if isinstance(n.func, ast.Attribute):
             recv = self.ev(n.func.value)
@@ -526,6 +529,9 @@ class Evaluator:
                 return self._builtin(getattr(recv, a), args, kwargs)
             if isinstance(recv, (dict, list, tuple, set)) and a in _CONTAINER_METHODS:
                 return self._builtin(getattr(recv, a), args, kwargs)
+            home = getattr(self, "home", None)
+            if home is not None and home.self_obj is not None and recv is home.self_obj and a in home.class_methods:
+                return home.method(a)(recv, *args, **kwargs)      # another method of the object the folded method belongs to
             raise Unfoldable(f"method call {key} on {type(recv).__name__}")
         raise Unfoldable(f"call of {key}")
 
@@ -829,8 +835,32 @@ class Lifted:
         self.vararg = a.vararg.arg if a.vararg else None
         self.kwarg = a.kwarg.arg if a.kwarg else None
         self.body = [s for s in fn.body if not (isinstance(s, ast.Expr) and isinstance(s.value, ast.Constant))]
+        # where the function lives: sibling helpers of its module and sibling methods of its class can be lifted on demand
+        self.module_funcs, self.class_methods, self.self_obj = {}, {}, None
+        mod = getattr(fn, "_mod", None)
+        if mod is not None:
+            self.module_funcs = {n.name: n for n in mod.tree.body if isinstance(n, ast.FunctionDef) and n is not fn}
+        par = getattr(fn, "_parent", None)
+        if isinstance(par, ast.ClassDef):
+            self.class_methods = {n.name: n for n in par.body if isinstance(n, ast.FunctionDef) and n is not fn}
+        self._lifted_helpers = {}
         self.is_gen = any(isinstance(n, (ast.Yield, ast.YieldFrom)) for st in self.body for n in ast.walk(st)
                           if not isinstance(st, (ast.FunctionDef, ast.ClassDef)))
+
+    def helper(self, name):
+        if name not in self._lifted_helpers:
+            h = Lifted(self.module_funcs[name], self.funcs, self.consts, self.env, self.hook)
+            h.funcs, h.env = self.funcs, self.env
+            self._lifted_helpers[name] = h
+        return self._lifted_helpers[name]
+
+    def method(self, name):
+        key = "method:" + name
+        if key not in self._lifted_helpers:
+            h = Lifted(self.class_methods[name], self.funcs, self.consts, self.env, self.hook)
+            h.funcs, h.env = self.funcs, self.env
+            self._lifted_helpers[key] = h
+        return self._lifted_helpers[key]
 
     def bind(self, args, kw):
         loc = {}
@@ -866,6 +896,9 @@ class Lifted:
     def __call__(self, *args, **kw):
         ev = Evaluator(dict(self.env), self.funcs, self.consts, hook=self.hook)
         ev.locals.update(self.bind(args, kw))
+        ev.home = self
+        if self.class_methods and self.pos and args:
+            self.self_obj = args[0]
         if self.is_gen:
             return _LazyGen(ev, self.body)
         kind, val = ev.run(self.body)
